@@ -77,6 +77,15 @@ struct W {
     accts: Vec<Address>,
     miners: Vec<M>,
     padded: bool,
+    cache: std::cell::RefCell<SnapCache>,
+}
+
+/// decoded parts of the last snapshot, keyed by the CIDs they were decoded from
+#[derive(Default)]
+struct SnapCache {
+    claims: Option<(cid::Cid, BTreeSet<u64>)>,
+    queue: Option<(cid::Cid, BTreeMap<i64, Vec<(u64, i64)>>)>,
+    miners: HashMap<u64, (cid::Cid, MSnap)>,
 }
 
 #[derive(Clone, Debug, PartialEq)]
@@ -138,35 +147,59 @@ fn snapshot(w: &W) -> Snap {
     let v = &w.v;
     let pst: PowerState = get_state(v, &STORAGE_POWER_ACTOR_ADDR).unwrap();
     let store = v.store.as_ref();
-    let mut claims = BTreeSet::new();
-    let cm = pst.load_claims(store).unwrap();
-    cm.for_each(|a, _| {
-        claims.insert(a.id().unwrap());
-        Ok(())
-    })
-    .unwrap();
-    let mut queue: BTreeMap<i64, Vec<(u64, i64)>> = BTreeMap::new();
-    let mm = Multimap::from_root(store, &pst.cron_event_queue, CRON_QUEUE_HAMT_BITWIDTH, CRON_QUEUE_AMT_BITWIDTH).unwrap();
-    mm.for_all::<_, CronEvent>(|key, events| {
-        // epoch_key() is the zig-zag (signed) varint of the epoch
-        let epoch = <i64 as integer_encoding::VarInt>::decode_var(key).unwrap().0;
-        let mut l = vec![];
-        events
-            .for_each(|_, ev| {
-                let p: CronEventPayload = fvm_ipld_encoding::from_slice(ev.callback_payload.bytes()).unwrap();
-                l.push((ev.miner_addr.id().unwrap(), p.event_type));
+    let mut cache = w.cache.borrow_mut();
+    let claims = match &cache.claims {
+        Some((c, cl)) if *c == pst.claims => cl.clone(),
+        _ => {
+            let mut claims = BTreeSet::new();
+            let cm = pst.load_claims(store).unwrap();
+            cm.for_each(|a, _| {
+                claims.insert(a.id().unwrap());
                 Ok(())
             })
             .unwrap();
-        if !l.is_empty() {
-            queue.insert(epoch, l);
+            cache.claims = Some((pst.claims, claims.clone()));
+            claims
         }
-        Ok(())
-    })
-    .unwrap();
+    };
+    let queue = match &cache.queue {
+        Some((c, q)) if *c == pst.cron_event_queue => q.clone(),
+        _ => {
+            let mut queue: BTreeMap<i64, Vec<(u64, i64)>> = BTreeMap::new();
+            let mm = Multimap::from_root(store, &pst.cron_event_queue, CRON_QUEUE_HAMT_BITWIDTH, CRON_QUEUE_AMT_BITWIDTH).unwrap();
+            mm.for_all::<_, CronEvent>(|key, events| {
+                // epoch_key() is the zig-zag (signed) varint of the epoch
+                let epoch = <i64 as integer_encoding::VarInt>::decode_var(key).unwrap().0;
+                let mut l = vec![];
+                events
+                    .for_each(|_, ev| {
+                        let p: CronEventPayload = fvm_ipld_encoding::from_slice(ev.callback_payload.bytes()).unwrap();
+                        l.push((ev.miner_addr.id().unwrap(), p.event_type));
+                        Ok(())
+                    })
+                    .unwrap();
+                if !l.is_empty() {
+                    queue.insert(epoch, l);
+                }
+                Ok(())
+            })
+            .unwrap();
+            cache.queue = Some((pst.cron_event_queue, queue.clone()));
+            queue
+        }
+    };
     let mut miners = BTreeMap::new();
     for m in &w.miners {
-        miners.insert(m.idn, msnap(v, &m.id));
+        let head = v.actor(&m.id).unwrap().state;
+        let ms = match cache.miners.get(&m.idn) {
+            Some((c, ms)) if *c == head => ms.clone(),
+            _ => {
+                let ms = msnap(v, &m.id);
+                cache.miners.insert(m.idn, (head, ms.clone()));
+                ms
+            }
+        };
+        miners.insert(m.idn, ms);
     }
     Snap { first_cron: pst.first_cron_epoch, miner_count: pst.miner_count, claims, queue, miners }
 }
@@ -1025,7 +1058,7 @@ fn run_case(cfg: &Cfg, stats: &mut Stats, stop_at: Option<usize>) -> (Case, Vec<
     v.take_invocations();
     let pst: PowerState = get_state(&v, &STORAGE_POWER_ACTOR_ADDR).unwrap();
     let init = format!("init {} {} {}", cf::z(e0), cf::z(pst.first_cron_epoch), cf::z(budget));
-    let w = W { v, accts, miners: vec![], padded };
+    let w = W { v, accts, miners: vec![], padded, cache: Default::default() };
     let mut cx = Ctx { w, r, cfg: cfg.clone(), stats, steps: vec![], fails: vec![], script: vec![], accepted_msg: false, pd_ok: false, extra: BTreeMap::new(), snap: Snap { first_cron: 0, miner_count: 0, claims: BTreeSet::new(), queue: BTreeMap::new(), miners: BTreeMap::new() }, kills: 0, e0, len: cfg.len };
     cx.bump(if padded { "cases_padded" } else { "cases_unpadded" }, 1);
     if tweak { cx.bump("cases_policy_tweaked", 1); }
